@@ -72,7 +72,8 @@ def assigned_names(stmts):
     return out
 
 
-def run_paths(stmts, env=None, max_paths=256):
+def run_paths(stmts, env=None, max_paths=256, decide=None):
+    """decide(test_ast) -> True/False/None lets the caller prune branches whose test it can evaluate."""
     results = []
 
     def go(stmts, i, env, conds, effects):
@@ -134,8 +135,13 @@ def run_paths(stmts, env=None, max_paths=256):
             if isinstance(s, ast.If):
                 test = subst(s.test, env)
                 rest = stmts[i:]
-                go(list(s.body) + rest, 0, env, conds + [(test, True)], effects)
-                go(list(s.orelse) + rest, 0, env, conds + [(test, False)], effects)
+                verdict = decide(test) if decide is not None else None
+                if verdict is None and isinstance(test, ast.Constant) and isinstance(test.value, (bool, int)):
+                    verdict = bool(test.value)
+                if verdict is not False:
+                    go(list(s.body) + rest, 0, env, conds + [(test, True)], effects)
+                if verdict is not True:
+                    go(list(s.orelse) + rest, 0, env, conds + [(test, False)], effects)
                 return
             if isinstance(s, (ast.With, ast.AsyncWith)):
                 rest = stmts[i:]
